@@ -174,6 +174,7 @@ def run_group(gs):
                 )
                 solvers[run] = solver
             solver.lin_fault = make_lin_fault(rs.get("lin_fault"))
+            solver._wellposed = bool(rs.get("wellposed", False))
             try:
                 res = solver.solve(np.array(x0, copy=True), np.array(y0, copy=True))
                 status = res.status.name
